@@ -117,12 +117,27 @@ func outputProjects(c *core.Ctx, n int) []*gen.Project {
 			ccols[k].Align = aligns[(i+k+3)%5]
 		}
 		p.CropOut = ccols
+		// automatic sowing switched on for a rotation whose crops the automatic-management table does not know (the table
+		// holds another crop): nothing is sown by the automaton, every entry still comes to its harvest date and is a
+		// harvested crop of the rotation like any other
+		noAutoRow := (i%6 == 3 || i%6 == 1 || i%6 == 2) && len(p.Rotation) > 1
+		if noAutoRow {
+			p.Cfg.AutoSow = 1
+			other := "K"
+			for _, e := range p.Rotation {
+				if e.Crop == other {
+					other = "LUP"
+				}
+			}
+			p.Automan = []gen.AutoRow{gen.DefaultAutoRow(other)}
+			p.Till = nil
+		}
 		ey, em, ed := gen.YMD(p.Cfg.End)
 		ext := gen.DayNum(ey, p.Cfg.AnnualM, p.Cfg.AnnualD) > p.Cfg.End
 		_ = em
 		_ = ed
-		p.Arms = []string{fmt.Sprintf("outInt=%d format=%d dateFormat=%d annual=%02d.%02d. endYearLeap=%v annualAfterEnd=%v cols=%d/%d/%d", p.Cfg.OutInt, p.Cfg.ResultFormat, p.Cfg.DateFormat,
-			p.Cfg.AnnualD, p.Cfg.AnnualM, gen.IsLeap(ey), ext, len(cols), len(ycols), len(ccols))}
+		p.Arms = []string{fmt.Sprintf("outInt=%d format=%d dateFormat=%d annual=%02d.%02d. endYearLeap=%v annualAfterEnd=%v cols=%d/%d/%d autoSowUnknownCrops=%v", p.Cfg.OutInt, p.Cfg.ResultFormat, p.Cfg.DateFormat,
+			p.Cfg.AnnualD, p.Cfg.AnnualM, gen.IsLeap(ey), ext, len(cols), len(ycols), len(ccols), noAutoRow)}
 		if ext {
 			p.Arms = append(p.Arms, "annualAfterEnd")
 		}
